@@ -31,18 +31,41 @@ pub fn gen_world(rng: &mut Rng, n_templates: usize, n_datas: usize, stateful: bo
     let partials = gen::gen_partials(rng, &cfg, corrupt, absent, 4);
     cfg.partials = partials.names().iter().map(|n| gen::invocation_name(n)).collect();
     cfg.absent = partials.absent.clone();
-    let mut templates = vec![];
+    let mut templates: Vec<Vec<gen::Node>> = vec![];
     for _ in 0..n_templates {
         let mut g = Gen::new(rng, &cfg);
         templates.push(g.template());
     }
     let names = partials.names();
-    let datas = (0..n_datas)
+    let mut datas: Vec<crate::data::Dv> = (0..n_datas)
         .map(|_| {
             let h = holes && rng.chance(1, 4);
             gen::gen_data(rng, &names, h)
         })
         .collect();
+    let mut partials = partials;
+    if stateful {
+        // history engines: renders that fail midway for some data and succeed for other data
+        for t in templates.iter_mut() {
+            if rng.chance(1, 2) {
+                gen::inject_abort(t, rng);
+            }
+        }
+        for d in partials.defs.iter_mut() {
+            if let gen::PartialBody::Valid(nodes) = &mut d.body {
+                if rng.chance(1, 4) {
+                    gen::inject_abort(nodes, rng);
+                }
+            }
+        }
+        for d in datas.iter_mut() {
+            if let crate::data::Dv::Object(o) = d {
+                if rng.chance(1, 3) {
+                    o.retain(|(k, _)| k != "boom");
+                }
+            }
+        }
+    }
     let mut w = WorldSpec {
         partials,
         listing_rot: rng.below(4),
@@ -134,32 +157,45 @@ fn check_plan(c: &Ctx<'_>, plan: &FaultPlan, rep_out: &mut RunReport) -> Option<
                     format!("sink failed at write {} ({:?}, sticky={}) but render_to returned Ok", h.at, h.kind, h.sticky),
                 ));
             }
-            if rep.calls_after_hard > 0 || rep.flushes_after_hard > 0 {
+            rep_out.bump("probe.flush_after_fault", rep.flushes_after_hard as u64);
+            if rep.calls_after_hard > 0 {
                 return Some((
                     "F3-write-after-fault".into(),
                     format!(
-                        "{} write call(s) ({} bytes) and {} flush(es) after the sink failed at write {} ({:?}, sticky={})",
-                        rep.calls_after_hard, rep.bytes_after_hard, rep.flushes_after_hard, h.at, h.kind, h.sticky
+                        "{} write call(s) ({} bytes) after the sink failed at write {} ({:?}, sticky={})",
+                        rep.calls_after_hard, rep.bytes_after_hard, h.at, h.kind, h.sticky
                     ),
                 ));
             }
-            let want = expected_prefix_len(c.chunks, &h).min(b.len());
-            if out.bytes() != &b[..want] {
+            if !b.starts_with(out.bytes()) {
                 return Some((
                     "F2-prefix".into(),
                     format!(
-                        "accepted bytes {:?} are not the fault-free prefix {:?} (fault at write {}, {:?})",
+                        "accepted bytes {:?} are not a prefix of the fault-free output {:?} (fault at write {}, {:?})",
                         String::from_utf8_lossy(out.bytes()),
-                        String::from_utf8_lossy(&b[..want]),
+                        String::from_utf8_lossy(b),
                         h.at,
                         h.kind
                     ),
                 ));
             }
+            // not demanded by the property (only "a prefix" is): the length the write sequence predicts
+            let want = expected_prefix_len(c.chunks, &h).min(b.len());
+            if out.bytes().len() != want {
+                rep_out.bump("probe.prefix_length_unexpected", 1);
+            }
             None
         }
         None => {
             if out != *c.base {
+                // A sink that returns `Interrupted` has, strictly speaking, failed at that write: a
+                // library that gives up there (error, clean prefix, silence afterwards) still satisfies
+                // the property. Short counts are not failures and must be transparent.
+                let eintr_plan = plan.eintr_every.is_some() || !plan.eintr_at.is_empty();
+                if eintr_plan && rep.stats.eintr_fired > 0 && out.is_err() && b.starts_with(out.bytes()) && rep.calls_after_first_eintr == 0 {
+                    rep_out.bump("probe.eintr_treated_as_failure", 1);
+                    return None;
+                }
                 return Some((
                     "F5-transparent-differs".into(),
                     format!("short writes / EINTR changed the result: {} vs fault-free {}", out.show(), c.base.show()),
@@ -207,7 +243,7 @@ fn check_world(spec: &WorldSpec, policy: PolicyKind, rng: &mut Rng, only: Option
     rep.evals += 1;
     let f0 = match (&buf, &base) {
         (Outcome::Ok(a), Outcome::Ok(b)) => a == b && std::str::from_utf8(b).is_ok(),
-        (Outcome::Err { msg: a, .. }, Outcome::Err { msg: b, .. }) => a == b,
+        (Outcome::Err { .. }, Outcome::Err { .. }) => true,
         _ => false,
     };
     if !f0 && (only.is_none() || only == Some(&None)) {
@@ -223,10 +259,6 @@ fn check_world(spec: &WorldSpec, policy: PolicyKind, rng: &mut Rng, only: Option
             }
             if let Some((c, d)) = check_plan(&ctx, plan, rep) {
                 return Some((c, d, Some(plan.clone())));
-            }
-            let (again, _) = world::render_streamed(&tmpl, g, &FaultPlan::none());
-            if again != base {
-                return Some(("F4-after-fault-differs".into(), format!("fault-free render after the faulted one gave {} instead of {}", again.show(), base.show()), Some(plan.clone())));
             }
         }
         return None;
@@ -246,13 +278,6 @@ fn check_world(spec: &WorldSpec, policy: PolicyKind, rng: &mut Rng, only: Option
                     return Some((c, d, Some(plan)));
                 }
             }
-        }
-        // F4: the next fault-free render on the same parser is unaffected
-        let (again, _) = world::render_streamed(&tmpl, g, &FaultPlan::none());
-        rep.evals += 1;
-        if again != base {
-            let plan = FaultPlan::hard(k, kinds[0], true);
-            return Some(("F4-after-fault-differs".into(), format!("fault-free render after a fault at write {k} gave {} instead of {}", again.show(), base.show()), Some(plan)));
         }
     }
     // transparent faults
